@@ -271,3 +271,92 @@ Example compat_examples :
   eq_complex 20 fl_assign (TFn [t_int] (Some (TOpt t_int))) (TFn [t_int] (Some t_int)) = Some true /\
   eq_complex 20 fl_assign t_int t_str = Some false.
 Proof. vm_compute. repeat split; reflexivity. Qed.
+
+(* ------------------------------------------------------------------ fuel is sufficient *)
+
+Lemma size_strip_le : forall t, size (strip t) <= size t.
+Proof. induction t; cbn [strip size]; try lia. Qed.
+
+Lemma size_pos : forall t, 1 <= size t.
+Proof. destruct t; cbn [size]; lia. Qed.
+
+Lemma size_in : forall x l, In x l -> size x <= fold_right (fun y acc => size y + acc) 0 l.
+Proof.
+  induction l as [|y l IH]; cbn [In fold_right]; intros H; [contradiction|].
+  destruct H as [<-|H]; [lia | specialize (IH H); lia].
+Qed.
+
+Lemma oand_some : forall a b, a <> None -> b <> None -> oand a b <> None.
+Proof. intros [?|] [?|]; cbn; congruence. Qed.
+
+Lemma all2_some : forall f l1 l2,
+  (forall x y, In x l1 -> In y l2 -> f x y <> None) -> all2 f l1 l2 <> None.
+Proof.
+  induction l1 as [|x l1 IH]; intros [|y l2] H; cbn [all2]; try discriminate.
+  apply oand_some; [apply H; left; reflexivity | apply IH; intros; apply H; right; assumption].
+Qed.
+
+Lemma all1_some : forall f l, (forall x, In x l -> f x <> None) -> all1 f l <> None.
+Proof.
+  induction l as [|x l IH]; intros H; cbn [all1]; try discriminate.
+  apply oand_some; [apply H; left; reflexivity | apply IH; intros; apply H; right; assumption].
+Qed.
+
+Definition weight (md : option flags) (t u : ty) : nat :=
+  match md with
+  | None => 2 * (size t + size u)
+  | Some _ => 2 * (size (strip t) + size (strip u)) + 1
+  end.
+
+Lemma cmp_fuel_weight : forall fixed n md t u, weight md t u < n -> cmp fixed n md t u <> None.
+Proof.
+  intros fixed. induction n as [|n IH]; intros md t u W; [lia|].
+  cbn [cmp]. destruct md as [f|].
+  - (* eq_complex *)
+    cbn [weight] in W.
+    pose proof (size_strip_le (strip t)) as Sl. pose proof (size_strip_le (strip u)) as Sr.
+    remember (strip t) as lhs eqn:El. remember (strip u) as rhs eqn:Er.
+    assert (T : cmp fixed n None lhs rhs <> None) by (apply IH; cbn [weight]; lia).
+    destruct (cmp fixed n None lhs rhs) as [[|]|]; [discriminate| |congruence].
+    assert (Sub : forall a b, size (strip a) + size (strip b) < size lhs + size rhs -> cmp fixed n (Some f) a b <> None)
+      by (intros a b Hab; apply IH; cbn [weight]; lia).
+    assert (SubL : forall a b, size a + size b < size lhs + size rhs -> cmp fixed n (Some f) a b <> None)
+      by (intros a b Hab; apply Sub; pose proof (size_strip_le a); pose proof (size_strip_le b); lia).
+    destruct lhs as [k1 l1| |a|a|t1|k1 v1|p1 r1|n1 a|n1]; destruct rhs as [k2 l2| |b|b|t2|k2 v2|p2 r2|n2 b|n2];
+      cbn [is_nil_ty get_opt is_str andb orb negb];
+      repeat match goal with
+             | |- context [if ?c then _ else _] => destruct c
+             end;
+      try discriminate;
+      try (apply SubL; cbn [size]; lia);
+      try (apply oand_some; [discriminate|]; apply all2_some; intros x y Hx Hy; apply SubL;
+           apply size_in in Hx; apply size_in in Hy; cbn [size]; lia);
+      try (apply all1_some; intros x Hx; apply SubL; apply size_in in Hx; cbn [size]; lia).
+  - (* == *)
+    cbn [weight] in W.
+    assert (SubE : forall g a b, size a + size b + 1 < size t + size u -> cmp fixed n (Some g) a b <> None).
+    { intros g a b Hab. apply IH. cbn [weight]. pose proof (size_strip_le a). pose proof (size_strip_le b). lia. }
+    assert (SubT : forall a b, size a + size b < size t + size u -> cmp fixed n None a b <> None)
+      by (intros a b Hab; apply IH; cbn [weight]; lia).
+    destruct t as [k1 l1| |a|a|t1|k1 v1|p1 r1|n1 a|n1]; destruct u as [k2 l2| |b|b|t2|k2 v2|p2 r2|n2 b|n2];
+      try discriminate;
+      try (apply SubT; cbn [size]; lia);
+      try (apply SubE; cbn [size]; lia);
+      try (apply oand_some; [discriminate|]; apply all2_some; intros x y Hx Hy; apply SubE;
+           apply size_in in Hx; apply size_in in Hy; cbn [size]; lia);
+      try (apply all1_some; intros x Hx; apply SubE; apply size_in in Hx; cbn [size]; lia).
+    + (* map *) apply oand_some; apply SubT; cbn [size]; lia.
+    + (* fn *)
+      destruct (negb (Nat.eqb (length p1) (length p2))); [discriminate|].
+      apply oand_some.
+      * destruct r1 as [x|], r2 as [y|]; try discriminate. apply SubE. cbn [size]. lia.
+      * apply all2_some. intros x y Hx Hy. apply SubE. apply size_in in Hx. apply size_in in Hy. cbn [size]. lia.
+    + (* alias *) apply oand_some; [discriminate|]. apply SubT. cbn [size]. lia.
+Qed.
+
+Theorem cmp_fuel : forall fixed n md t u,
+  2 * (size t + size u) + 2 <= n -> cmp fixed n md t u <> None.
+Proof.
+  intros fixed n md t u H. apply cmp_fuel_weight.
+  pose proof (size_strip_le t). pose proof (size_strip_le u). destruct md; cbn [weight]; lia.
+Qed.
